@@ -119,9 +119,9 @@ def run(ctx):
     from vncdotool import command
     from unittest import mock
     import tempfile, os
-    texts = ["", "a", "Hello, World!", "a-b", "été", "tab\there", "x" * 40]
+    texts = ["", "a", "Hello, World!", "a-b", "été", "tab\there", "x" * 40, "a\r\nb", "\r\n", "\n\r\n\r", "two\nlines\n", " lead and trail ", "q'\"\\#"]
     for _ in range(ctx.n(50, 500)):
-        texts.append("".join(chr(ctx.rng.choice([ctx.rng.randrange(32, 127), ctx.rng.randrange(160, 0x2000)])) for _ in range(ctx.rng.randint(1, 12))))
+        texts.append("".join(chr(ctx.rng.choice([ctx.rng.randrange(32, 127), ctx.rng.randrange(160, 0x2000), 10, 13, 9])) for _ in range(ctx.rng.randint(1, 12))))
     for t in texts:
         fac = mock.Mock()
         command.build_command_list(fac, ["type", t])
